@@ -43,6 +43,8 @@ pub struct StyleSheetTransformer {
     using_low_priority: bool,
     warnings: Vec<error::ParseError>,
     cur_at_rule_stacks: Vec<String>,
+    /// >0 while the tokens being copied are not selectors (no `.name` is a class selector there)
+    no_class_selector_depth: usize,
 }
 
 impl StyleSheetTransformer {
@@ -60,6 +62,7 @@ impl StyleSheetTransformer {
             using_low_priority: false,
             warnings: vec![],
             cur_at_rule_stacks: vec![],
+            no_class_selector_depth: 0,
         };
 
         {
@@ -189,6 +192,7 @@ fn write_maybe_class_name(
     src: &CowRcStr,
     in_class: bool,
 ) {
+    let in_class = in_class && ss.no_class_selector_depth == 0;
     if in_class {
         if let Some(content) = ss.options.class_prefix_sign.clone() {
             let st = StepToken::wrap(Token::Comment(&content), next.position);
@@ -454,8 +458,20 @@ fn parse_at_rule(
                         Token::SquareBracketBlock
                         | Token::ParenthesisBlock
                         | Token::Function(_) => {
+                            // the prelude blocks of the conditional at-rules are conditions and values
+                            // (`domain(mozilla.org)`, `style(--t: a.b)`, `(font: 1px a.b)`), except `selector(...)`
+                            let is_selector = !matches!(
+                                unprefixed,
+                                "media" | "supports" | "container" | "document" | "import"
+                            ) || matches!(&next.token, Token::Function(f) if f.eq_ignore_ascii_case("selector"));
                             let close = ss.append_nested_block(next, input);
+                            if !is_selector {
+                                ss.no_class_selector_depth += 1;
+                            }
                             convert_class_names_and_rpx_in_block(input, ss);
+                            if !is_selector {
+                                ss.no_class_selector_depth -= 1;
+                            }
                             ss.append_nested_block_close(close, input);
                         }
                         Token::Semicolon => {
